@@ -10,7 +10,7 @@ TRUSTED_BASE = [
 
 BRANCH_NAMES = {
     'observe': ['first_round_empty', 'no_votes', 'votes', 'error', 'panic'],
-    'mercobserve': ['v2_v4_observation', 'v1_observation', 'error', 'panic', 'fee', 'fee_panic'],
+    'mercobserve': ['v2_v4_observation', 'v1_observation', 'error', 'panic', 'fee', 'fee_panic', 'whole_rounds_observation_then_report'],
     'reportsflow': ['no_reports', 'reports', 'error', 'panic'],
     'mercagg': ['timestamp', 'price_ok', 'price_err', 'fee_ok', 'fee_err', 'maxfints_ok', 'maxfints_err', 'maxfinblock_ok',
                 'maxfinblock_err', 'status_ok', 'status_err', 'latestblock_ok', 'latestblock_err'],
